@@ -390,7 +390,7 @@ theorem doUpdate_zero_conflict (c : Cfg) (s : BState) (k v : Bytes)
   simp only [doUpdate, h, failRes, sequence_store, beq_self_eq_true, if_true]
   cases bget c s.store k 0 <;> rfl
 
-theorem doUpdate_nz_ok (c : Cfg) (s : BState) (k v : Bytes) (exp : Nat) (h0 : exp ≠ 0) (hle : exp ≤ s.dealt + 1)
+theorem doUpdate_nz_ok (c : Cfg) (s : BState) (k v : Bytes) (exp : Nat) (h0 : exp ≠ 0) (hle : exp ≤ s.dealt)
     (hi : s.store.get (idxKey k) = some (be8 exp)) :
     (doUpdate c s k v exp []).1 = .ok (s.dealt + 1) := by
   have h1 := doCommit_cas_put_ok c s.store (idxKey k) (be8 (s.dealt + 1)) (be8 exp) (encode k (s.dealt + 1)) v hi
@@ -399,11 +399,11 @@ theorem doUpdate_nz_ok (c : Cfg) (s : BState) (k v : Bytes) (exp : Nat) (h0 : ex
   obtain ⟨r, st⟩ := d
   simp only at h1
   subst h1
-  have hlt : ¬ (s.dealt + 1 < exp) := by omega
+  have hlt : ¬ (s.dealt + 1 ≤ exp) := by omega
   simp [doUpdate, h0, hlt, nextFault, hd]
 
 theorem doUpdate_nz_conflict (c : Cfg) (hq : c.q.casMissingNotFound = false) (s : BState) (k v : Bytes) (exp : Nat)
-    (h0 : exp ≠ 0) (hle : exp ≤ s.dealt + 1) (hi : s.store.get (idxKey k) ≠ some (be8 exp)) :
+    (h0 : exp ≠ 0) (hle : exp ≤ s.dealt) (hi : s.store.get (idxKey k) ≠ some (be8 exp)) :
     (doUpdate c s k v exp []).1 = failRes c s k := by
   have h1 := doCommit_cas_put_conflict c hq s.store (idxKey k) (be8 (s.dealt + 1)) (be8 exp)
     (encode k (s.dealt + 1)) v hi
@@ -413,7 +413,7 @@ theorem doUpdate_nz_conflict (c : Cfg) (hq : c.q.casMissingNotFound = false) (s 
   obtain ⟨hr, hst⟩ := h1
   simp only at hr hst
   subst hst
-  have hlt : ¬ (s.dealt + 1 < exp) := by omega
+  have hlt : ¬ (s.dealt + 1 ≤ exp) := by omega
   cases r with
   | conflict i cv =>
     simp only [doUpdate, failRes, h0, hlt, nextFault, hd, sequence_store, beq_iff_eq, if_false]
@@ -423,7 +423,7 @@ theorem doUpdate_nz_conflict (c : Cfg) (hq : c.q.casMissingNotFound = false) (s 
   | uncertain => simp [CommitRes.isCas] at hr
   | err => simp [CommitRes.isCas] at hr
 
-theorem doUpdate_fst (c : Cfg) (s : BState) (k v : Bytes) (exp : Nat) (h : WHyp c s k) (hexp : exp ≤ s.dealt + 1) :
+theorem doUpdate_fst (c : Cfg) (s : BState) (k v : Bytes) (exp : Nat) (h : WHyp c s k) (hexp : exp ≤ s.dealt) :
     (doUpdate c s k v exp []).1 = match curKv c s k with
       | none => if exp = 0 then .ok (s.dealt + 1) else .condFailed (s.dealt + 1) none
       | some (_, cv, cm) => if exp = cm then .ok (s.dealt + 1)
@@ -492,7 +492,7 @@ theorem doUpdate_fst (c : Cfg) (s : BState) (k v : Bytes) (exp : Nat) (h : WHyp 
             (by rw [hi]; intro he; exact hem (be8_inj (by omega) (by omega) (Option.some.inj he)).symm)]
           simp [failRes, bget_eq, hg, ht]
 
-theorem doDelete_fst (c : Cfg) (s : BState) (k : Bytes) (exp : Nat) (h : WHyp c s k) (hexp : exp ≤ s.dealt + 1) :
+theorem doDelete_fst (c : Cfg) (s : BState) (k : Bytes) (exp : Nat) (h : WHyp c s k) (hexp : exp ≤ s.dealt) :
     (doDelete c s k exp []).1 = match curKv c s k with
       | none => .notFound (s.dealt + 1)
       | some (_, cv, cm) => if exp = 0 ∨ exp = cm then .ok (s.dealt + 1)
@@ -509,7 +509,7 @@ theorem doDelete_fst (c : Cfg) (s : BState) (k : Bytes) (exp : Nat) (h : WHyp c 
     · rw [if_neg ht]
       rw [if_neg ht] at hi
       simp only
-      have hdr : ¬ (s.dealt + 1 < exp) := by omega
+      have hdr : ¬ (s.dealt + 1 ≤ exp) := by omega
       have hrm : ¬ (s.dealt + 1 ≤ m) := by omega
       by_cases hcond : exp = 0 ∨ exp = m
       · rw [if_pos hcond]
@@ -840,12 +840,12 @@ theorem sound_create (c : Cfg) (s : BState) (m : Mvcc) (cm : Compare) (p : PutRe
     exact ⟨_, _, m', hshim, hm', by simp [TxnResp.obs, readsOf]⟩
 
 theorem sound_update_in (c : Cfg) (s : BState) (m : Mvcc) (cm : Compare) (p : PutReq) (g : RangeReq) (n : Int)
-    (hc : ModCmp cm p.key n) (h0 : 0 ≤ n) (hle : n ≤ s.dealt + 1) (hp : PlainPut p) (hg : PlainGet g p.key)
+    (hc : ModCmp cm p.key n) (h0 : 0 ≤ n) (hle : n ≤ s.dealt) (hp : PlainPut p) (hg : PlainGet g p.key)
     (hw : WHyp c s p.key) (ha : AbsAt c s m p.key) :
     Agree c s m { compare := [cm], success := [.put p], failure := [.range g] } := by
   have hb := hw.bound
   have hu : toU64 n = n.toNat := toU64_of_nonneg h0 (by omega)
-  have hexp : n.toNat ≤ s.dealt + 1 := by omega
+  have hexp : n.toNat ≤ s.dealt := by omega
   have hshim : (shimTxn c s { compare := [cm], success := [.put p], failure := [.range g] }).1 =
       match curKv c s p.key with
       | none => if n.toNat = 0
@@ -899,12 +899,12 @@ theorem sound_update_in (c : Cfg) (s : BState) (m : Mvcc) (cm : Compare) (p : Pu
       exact ⟨_, _, m', hshim, hm', by simp [TxnResp.obs, readsOf, RespOp.kvs?, KVFull.proj, hek]⟩
 
 theorem sound_gdelete_in (c : Cfg) (s : BState) (m : Mvcc) (cm : Compare) (d : DelReq) (g : RangeReq) (n : Int)
-    (hc : ModCmp cm d.key n) (h0 : 0 < n) (hle : n ≤ s.dealt + 1) (hk : d.key ≠ []) (he : d.rangeEnd = [])
+    (hc : ModCmp cm d.key n) (h0 : 0 < n) (hle : n ≤ s.dealt) (hk : d.key ≠ []) (he : d.rangeEnd = [])
     (hg : PlainGet g d.key) (hw : WHyp c s d.key) (ha : AbsAt c s m d.key) :
     Agree c s m { compare := [cm], success := [.del d], failure := [.range g] } := by
   have hb := hw.bound
   have hu : toU64 n = n.toNat := toU64_of_nonneg (by omega) (by omega)
-  have hexp : n.toNat ≤ s.dealt + 1 := by omega
+  have hexp : n.toNat ≤ s.dealt := by omega
   have hn0 : ¬ n.toNat = 0 := by omega
   have hshim : (shimTxn c s { compare := [cm], success := [.del d], failure := [.range g] }).1 =
       match curKv c s d.key with
@@ -997,19 +997,19 @@ theorem sound_udelete (c : Cfg) (s : BState) (m : Mvcc) (g : RangeReq) (d : DelR
     obtain ⟨m', hm'⟩ := exists_of_map_fst href
     exact ⟨_, _, m', hshim, hm', by simp [TxnResp.obs, readsOf, RespOp.kvs?, KVFull.proj, hek, ha.rev]⟩
 
-/-! ### expectations outside `0 .. dealt+1`: refused with a drift error, or answered like etcd -/
+/-! ### expectations outside `0 .. dealt`: refused with a drift error, or answered like etcd -/
 
 theorem toU64_neg {n : Int} (hlo : -2 ^ 63 ≤ n) (hneg : n < 0) : toU64 n = (n + 2 ^ 64).toNat := by
   unfold toU64
   have h : n % 2 ^ 64 = (n + 2 ^ 64) % 2 ^ 64 := by rw [Int.add_emod_right]
   rw [h, Int.emod_eq_of_lt (by omega) (by omega)]
 
-theorem doUpdate_drift (c : Cfg) (s : BState) (k v : Bytes) (exp : Nat) (hgt : s.dealt + 1 < exp) :
+theorem doUpdate_drift (c : Cfg) (s : BState) (k v : Bytes) (exp : Nat) (hgt : s.dealt + 1 ≤ exp) :
     (doUpdate c s k v exp []).1 = .error .drift := by
   have h0 : exp ≠ 0 := by omega
   simp [doUpdate, h0, hgt]
 
-theorem doDelete_far (c : Cfg) (s : BState) (k : Bytes) (exp : Nat) (hgt : s.dealt + 1 < exp) :
+theorem doDelete_far (c : Cfg) (s : BState) (k : Bytes) (exp : Nat) (hgt : s.dealt + 1 ≤ exp) :
     (doDelete c s k exp []).1 = match curKv c s k with
       | none => .notFound (s.dealt + 1)
       | some _ => .error .drift := by
@@ -1023,9 +1023,9 @@ theorem doDelete_far (c : Cfg) (s : BState) (k : Bytes) (exp : Nat) (hgt : s.dea
     · simp [doDelete, bget_eq, hg, ht]
     · simp [doDelete, bget_eq, hg, ht, hpos, hgt]
 
-/-- the far expectation as the backend sees it: a revision above `dealt + 1` -/
+/-- the far expectation as the backend sees it: a revision at or above `dealt + 1` (the revision about to be dealt) -/
 theorem toU64_far {n : Int} {dealt : Nat} (hlo : -2 ^ 63 ≤ n) (hhi : n < 2 ^ 63) (h63 : dealt + 1 < 2 ^ 63)
-    (hout : n < 0 ∨ (dealt : Int) + 1 < n) : dealt + 1 < toU64 n := by
+    (hout : n < 0 ∨ (dealt : Int) + 1 ≤ n) : dealt + 1 ≤ toU64 n := by
   rcases hout with hneg | hbig
   · rw [toU64_neg hlo hneg]; omega
   · rw [toU64_of_nonneg (by omega) (by omega)]; omega
@@ -1035,7 +1035,7 @@ theorem sound_update (c : Cfg) (s : BState) (m : Mvcc) (cm : Compare) (p : PutRe
     (hp : PlainPut p) (hg : PlainGet g p.key) (hw : WHyp c s p.key) (ha : AbsAt c s m p.key) :
     (∃ e, (shimTxn c s { compare := [cm], success := [.put p], failure := [.range g] }).1 = .error e) ∨
     Agree c s m { compare := [cm], success := [.put p], failure := [.range g] } := by
-  by_cases hin : 0 ≤ n ∧ n ≤ s.dealt + 1
+  by_cases hin : 0 ≤ n ∧ n ≤ s.dealt
   · exact .inr (sound_update_in c s m cm p g n hc hin.1 hin.2 hp hg hw ha)
   · left
     have hfar := toU64_far hlo hhi h63 (dealt := s.dealt) (by omega)
@@ -1050,7 +1050,7 @@ theorem sound_gdelete (c : Cfg) (s : BState) (m : Mvcc) (cm : Compare) (d : DelR
     (he : d.rangeEnd = []) (hg : PlainGet g d.key) (hw : WHyp c s d.key) (ha : AbsAt c s m d.key) :
     (∃ e, (shimTxn c s { compare := [cm], success := [.del d], failure := [.range g] }).1 = .error e) ∨
     Agree c s m { compare := [cm], success := [.del d], failure := [.range g] } := by
-  by_cases hin : n ≤ s.dealt + 1
+  by_cases hin : n ≤ s.dealt
   · exact .inr (sound_gdelete_in c s m cm d g n hc h0 hin hk he hg hw ha)
   · have hfar := toU64_far (n := n) (by omega) hhi h63 (dealt := s.dealt) (by omega)
     have hshim : (shimTxn c s { compare := [cm], success := [.del d], failure := [.range g] }).1 =
